@@ -22,7 +22,10 @@ Seeds == <<
   "local-name(a)", "namespace-uri()", "a[b][c]/d[e]", "(a)[b]", "a//b/@c", "attribute::a", "self::node()/a",
   "a[count(b[c]) > 1]", "concat(a, substring(b, 2), 'x')", "(a + 1) * (b - 2)", "a[@b and (c or d)]",
   "descendant-or-self::a[1]/parent::*", "preceding::a | following::b", "*[1]/*[2]", "@*", "a[not(b)][c != 'x']",
-  "sum(a/b[c > 1]) div count(a)", "//*[name() = 'a']", "a/b/c/d", "string(1 + 2)", "a[b = c]", "normalize-space()" >>
+  "sum(a/b[c > 1]) div count(a)", "//*[name() = 'a']", "a/b/c/d", "string(1 + 2)", "a[b = c]", "normalize-space()",
+  "processing-instruction('x')", "//processing-instruction('x')/..", "a/processing-instruction()", "a/text()[1]",
+  "comment()/..", "a[node()]", "count(//processing-instruction('x'))", "a/(b, text())", "a/(b[1], c)",
+  "concat(a, 'b')", "substring(a, 2)", "translate(a, 'b', 'c')", "string-join(a/b, '-')", "starts-with(name(), 'a')" >>
 
 \* compositional seeds: every function with its minimal and maximal argument list, every axis, every operator
 RECURSIVE ArgList(_)
@@ -38,7 +41,7 @@ AllSeeds == Seeds \o SetToSeq(FnSeeds \cup AxisSeeds \cup OpSeeds)
 VARIABLES si, op, pos, toks
 vars == <<si, op, pos, toks>>
 
-DamageOps == {"cut-after", "cut-in-quote", "delete-closer", "delete-quote", "rename-function", "drop-args", "unknown-axis",
+DamageOps == {"cut-after", "cut-in-quote", "delete-closer", "delete-quote", "rename-function", "drop-args", "drop-last-arg", "unknown-axis",
               "bad-qname-1", "bad-qname-2", "bad-qname-3"}
 
 Init == si = 0 /\ op = "" /\ pos = 0 /\ toks = <<>>
@@ -66,6 +69,16 @@ MatchParen(ts, i, depth) ==
     ELSE IF IsSym(ts[i], ")") THEN (IF depth = 1 THEN i ELSE MatchParen(ts, i + 1, depth - 1))
     ELSE MatchParen(ts, i + 1, depth)
 
+\* nesting depth of position i relative to the "(" at p (1 = directly inside)
+RECURSIVE DepthAt(_, _, _, _)
+DepthAt(ts, j, i, d) ==
+    IF j >= i THEN d
+    ELSE IF ts[j].k = "sym" /\ ts[j].s \in {"(", "["} THEN DepthAt(ts, j + 1, i, d + 1)
+    ELSE IF ts[j].k = "sym" /\ ts[j].s \in {")", "]"} THEN DepthAt(ts, j + 1, i, d - 1)
+    ELSE DepthAt(ts, j + 1, i, d)
+TopLevelIn(ts, p, i) == DepthAt(ts, p, i, 0) = 1
+MatchParenFrom(ts, p, c) == MatchParen(ts, p, 0)
+
 RECURSIVE JoinLex(_)
 JoinLex(ts) == IF ts = <<>> THEN "" ELSE Head(ts).s \o JoinLex(Tail(ts))
 
@@ -89,6 +102,18 @@ Damaged ==
       [] op = "drop-args" ->
            IF t.k = "name" /\ pos < Len(ts) /\ IsSym(ts[pos + 1], "(") /\ t.s \notin NodeTypeNames /\ MatchParen(ts, pos + 1, 0) > pos + 2
            THEN SubSeq(ts, 1, pos + 1) \o SubSeq(ts, MatchParen(ts, pos + 1, 0), Len(ts)) ELSE NoDamage
+      [] op = "drop-last-arg" ->   \* pos is the top-level comma before the last argument of a call
+           IF IsSym(t, ",") /\ \E f \in 1 .. (pos - 2) :
+                   /\ ts[f].k = "name" /\ IsSym(ts[f + 1], "(") /\ ts[f].s \notin NodeTypeNames
+                   /\ MatchParen(ts, f + 1, 0) > pos
+                   /\ ~\E c \in (pos + 1) .. (MatchParen(ts, f + 1, 0) - 1) : IsSym(ts[c], ",") /\ MatchParen(ts, f + 1, 0) = MatchParenFrom(ts, f + 1, c)
+                   /\ TopLevelIn(ts, f + 1, pos)
+           THEN LET f == CHOOSE f \in 1 .. (pos - 2) :
+                          /\ ts[f].k = "name" /\ IsSym(ts[f + 1], "(") /\ ts[f].s \notin NodeTypeNames
+                          /\ MatchParen(ts, f + 1, 0) > pos /\ TopLevelIn(ts, f + 1, pos)
+                          /\ \A g \in (f + 1) .. (pos - 2) : ~(ts[g].k = "name" /\ IsSym(ts[g + 1], "(") /\ MatchParen(ts, g + 1, 0) > pos /\ TopLevelIn(ts, g + 1, pos))
+                IN SubSeq(ts, 1, pos - 1) \o SubSeq(ts, MatchParen(ts, f + 1, 0), Len(ts))
+           ELSE NoDamage
       [] op = "unknown-axis" ->
            IF t.k = "name" /\ pos < Len(ts) /\ IsSym(ts[pos + 1], "::") THEN [ts EXCEPT ![pos] = TName("bogus")] ELSE NoDamage
       [] op = "bad-qname-1" ->    \* "p:" followed by nothing name-like
